@@ -20,7 +20,8 @@ MANIFEST = {
 }
 THEOREMS = ["C05_only_unhealthy_improves_bounded", "C05_precheck_alone_accepts_zero", "C05_no_flip_and_overliquidation_guard",
             "C05_liquidator_remains_initially_healthy", "C05_fee_constants", "C05_quantities_and_fee_split",
-            "C05_quantity_rounding_bound", "C05_liquidation_inversion", "C05_hypothesis_holds_in_wellformed_worlds"]
+            "C05_quantity_rounding_bound", "C05_liquidation_inversion", "C05_hypothesis_holds_in_wellformed_worlds",
+            "C05_liquidation_without_risk_accounts_never_succeeds"]
 RULE = ("suite risk (structured): 2-4 banks with Fixed or Pyth push oracles (confidence bands, EMA != spot), decimals 0-9 on both "
         "sides, liquidatee borrowing 80-100% of its initial limit, mildest collateral price drop that makes it unhealthy (or none: "
         "healthy), seize amounts: 1, fractions, full collateral, full+1, full+2 (over-liquidation boundary), descending family around "
